@@ -157,6 +157,13 @@ type TermTable struct {
 	byID   []*Term
 	nextID int32
 	apps   []*Term // UF applications in creation order
+	// results of look-ups in injective constant tables with an in-range index
+	tableLoads map[*Term]tableLoad
+}
+
+type tableLoad struct {
+	key string
+	idx *Term
 }
 
 func newTermTable() *TermTable {
@@ -242,6 +249,13 @@ func (tt *TermTable) And(a, b *Term) *Term {
 	}
 	if a == b {
 		return a
+	}
+	if a.op == OAnd {
+		// keep conjunctions right-nested so that slice equalities can be merged
+		return tt.And(a.a, tt.And(a.b, b))
+	}
+	if r := tt.andMerge(a, b); r != nil {
+		return r
 	}
 	return tt.intern(&Term{op: OAnd, a: a, b: b})
 }
@@ -330,6 +344,16 @@ func (tt *TermTable) Eq(a, b *Term) *Term {
 			return tFalse
 		}
 		return tt.Eq(a.a, mkConst(a.a.w, b.c))
+	}
+	if tt.tableLoads != nil && a.op == OIte && b.op == OIte {
+		if la, ok := tt.tableLoads[a]; ok {
+			if lb, ok := tt.tableLoads[b]; ok && la.key == lb.key && la.idx.w == lb.idx.w {
+				return tt.Eq(la.idx, lb.idx)
+			}
+		}
+	}
+	if a.op == OZext && b.op == OZext && a.a.w == b.a.w {
+		return tt.Eq(a.a, b.a)
 	}
 	// concatenations split at the same position compare piecewise
 	if a.op == OConcat && b.op == OConcat && a.a.w == b.a.w {
@@ -529,7 +553,13 @@ func (tt *TermTable) Bin(op Op, a, b *Term) *Term {
 			}
 		}
 	}
-	return tt.intern(&Term{op: op, w: a.w, a: a, b: b})
+	t := tt.intern(&Term{op: op, w: a.w, a: a, b: b})
+	if op == OShl || op == OLShr || op == OBAnd || op == OBOr {
+		if n := tt.wiringNormal(t); n != nil {
+			return n
+		}
+	}
+	return t
 }
 
 // Cmp builds ult/ule/slt/sle.
@@ -575,7 +605,63 @@ func (tt *TermTable) Cmp(op Op, a, b *Term) *Term {
 		}
 		return tt.Cmp(uop, mkConst(b.a.w, k), b.a)
 	}
+	// unsigned range analysis: x op k decided by an upper bound of x
+	if b.op == OConst && a.w <= 64 && (op == OULt || op == OULe) {
+		if ub := ubound(a, 12); (op == OULt && ub < b.c) || (op == OULe && ub <= b.c) {
+			return tTrue
+		}
+	}
+	if a.op == OConst && b.w <= 64 && (op == OULt || op == OULe) {
+		if ub := ubound(b, 12); (op == OULt && ub <= a.c) || (op == OULe && ub < a.c) {
+			return tFalse
+		}
+	}
 	return tt.intern(&Term{op: op, a: a, b: b})
+}
+
+// ubound returns an upper bound of the unsigned value of t (w <= 64).
+func ubound(t *Term, depth int) uint64 {
+	m := mask(t.w)
+	if t.w > 64 || depth == 0 {
+		return m
+	}
+	min := func(x, y uint64) uint64 {
+		if x < y {
+			return x
+		}
+		return y
+	}
+	switch t.op {
+	case OConst:
+		return t.c
+	case OBAnd:
+		return min(ubound(t.a, depth-1), ubound(t.b, depth-1))
+	case OLShr:
+		if t.b.op == OConst && t.b.c < 64 {
+			return ubound(t.a, depth-1) >> t.b.c
+		}
+	case OZext:
+		return ubound(t.a, depth-1)
+	case OExtract:
+		if t.lo == 0 && t.a.w <= 64 {
+			return min(ubound(t.a, depth-1), m)
+		}
+	case OIte:
+		x, y := ubound(t.b, depth-1), ubound(t.d, depth-1)
+		if x > y {
+			return x
+		}
+		return y
+	case OURem:
+		if t.b.op == OConst && t.b.c > 0 {
+			return min(t.b.c-1, ubound(t.a, depth-1))
+		}
+	case OUDiv:
+		if t.b.op == OConst && t.b.c > 0 {
+			return ubound(t.a, depth-1) / t.b.c
+		}
+	}
+	return m
 }
 
 func (tt *TermTable) Zext(a *Term, w int) *Term {
